@@ -31,7 +31,10 @@ func slashes(n int) string { return "///"[:n] }
 func sameResponse(tag string, a, b *Recorder) {
 	vsym.Assert(a.Code() == b.Code(), tag+"/status")
 	vsym.Assert(a.ErrCode() == b.ErrCode(), tag+"/error-code")
-	vsym.Assert(string(a.Body) == string(b.Body) || a.HasErrDoc() || len(a.XML) > 0, tag+"/body")
+	isXML := a.Hdr.Get("Content-Type") == "application/xml" && b.Hdr.Get("Content-Type") == "application/xml"
+	if !isXML { // XML documents carry request ids and time stamps; they are compared through status and error code
+		vsym.Assert(string(a.Body) == string(b.Body), tag+"/body")
+	}
 	for _, h := range []string{"ETag", "Content-Length", "Content-Type", "Location", "X-Amz-Delete-Marker"} {
 		vsym.Assert(a.Hdr.Get(h) == b.Hdr.Get(h), tag+"/header-"+h)
 	}
@@ -58,7 +61,7 @@ func sameState(tag string, a, b *s3mem.Backend, bucket string, keys []string) {
 // VH_C16: the same logical request in path style and in virtual-host style.
 func VH_C16() {
 	b1, b2 := seedBackend(), seedBackend()
-	mode := vsym.Choice("mode", 3)
+	mode := vsym.Choice("mode", 4)
 	const base1, base2 = "s3.example.test", "alt.example.org:9000"
 	var hostOpts []gofakes3.Option
 	switch mode {
@@ -66,8 +69,11 @@ func VH_C16() {
 		hostOpts = []gofakes3.Option{gofakes3.WithHostBucket(true)}
 	case 1:
 		hostOpts = []gofakes3.Option{gofakes3.WithHostBucketBase(base1)}
-	default:
+	case 2:
 		hostOpts = []gofakes3.Option{gofakes3.WithHostBucketBase("."+base1+".", base2)}
+	default:
+		// nested bases, the shorter one listed first
+		hostOpts = []gofakes3.Option{gofakes3.WithHostBucketBase("example.test", base1, base2)}
 	}
 	pathSrv := gofakes3.New(b1, gofakes3.WithTimeSkewLimit(0)).Server()
 	hostSrv := gofakes3.New(b2, append([]gofakes3.Option{gofakes3.WithTimeSkewLimit(0)}, hostOpts...)...).Server()
@@ -75,15 +81,21 @@ func VH_C16() {
 	// bucket label: the seeded bucket, or a free 3-byte label
 	bucket := "bkt"
 	if vsym.Choice("bucketsel", 2) == 1 {
-		bucket = vsym.String("label", 3)
-		for i := 0; i < 3; i++ {
+		bucket = "b" + vsym.String("label", 2)
+		for i := 1; i < 3; i++ {
 			vsym.Assume(bucket[i] != '.' && bucket[i] != '/' && bucket[i] != ':')
 		}
 	}
 	kl := vsym.Choice("keylen", vsym.Param("maxkey", 2)+1)
 	key := vsym.String("key", kl)
-	lead := vsym.Choice("lead", 2)   // extra slashes before the bucket (path style) / before the key (host style)
-	trail := vsym.Choice("trail", 2) // extra slashes at the end
+	// extra slashes before the bucket and at the end of the path
+	lead, trail := 0, 0
+	switch vsym.Choice("slashes", 3) {
+	case 1:
+		lead = 1
+	case 2:
+		trail = 1
+	}
 	var method string
 	var q url.Values
 	var body []byte
@@ -128,10 +140,13 @@ func VH_C16() {
 		host = bucket + "." + base1
 	case 1:
 		host = bucket + "." + base2
-		matches = mode == 0 || mode == 2
+		matches = mode != 1
 	case 2: // the base itself: no bucket label
 		host = base1
 		matches = false
+		if mode == 3 {
+			vsym.Assume(false) // under nested bases "s3.example.test" is bucket "s3" of the parent base
+		}
 	default: // two-label prefix
 		host = bucket + ".x." + base1
 		matches = false
